@@ -1,6 +1,6 @@
 (* Properties/C09.v — statements only. Submissions are validated and turned into the RFC 6962
    leaf correctly.
-   Model: Submit/Model.v (transcription of http.go addChain/addPreChain/addChainOrPreChain/
+   Model: Submit/Model.v (as of /repo 48383da; transcription of http.go addChain/addPreChain/addChainOrPreChain/
    lowPriority/getRoots and ctlog.go SetRootsFromPEM/LoadLog roots) over abstract certificates.
    Specification: Submit/Spec.v (rfc6962_entry_spec, acceptable, written from RFC 6962 3.1/3.2).
    Oracles (explicit function arguments of every statement, never axioms): parse_body =
@@ -38,19 +38,15 @@ Theorem C09_accept_complete : forall parse_body validate build sha ep roots win 
 Proof. exact accept_complete. Qed.
 Print Assumptions C09_accept_complete.
 
-(* C09_reject, full statement (FALSE of the faithful model, see C09_reject_4xx_refuted):
-     ~ acceptable ... -> exists code, 400 <= code < 500 /\ handler ... = Rejected code.
-   Proved part: a non-acceptable request is rejected before the pool, with a 4xx code except in
-   two named circumstances (body longer than 128 KiB; BuildPrecertTBS fails on a validated
-   precertificate chain), where the code is 500. *)
-Theorem C09_reject_partial : forall parse_body validate build sha, validate_contract validate ->
+(* everything else is rejected with a client error and leaves no leaf: full strength, for the
+   handler of /repo's current source (oversize body 413, BuildPrecertTBS failure 400) *)
+Theorem C09_reject : forall parse_body validate build sha, validate_contract validate ->
   forall ep roots win now body,
   ~ acceptable parse_body validate build sha ep roots win body ->
-  exists code, handler parse_body validate build sha ep roots win now body = Rejected code /\
-    ((400 <= code < 500)%Z \/
-     (code = 500%Z /\ server_error_case parse_body validate build roots win body)).
+  exists code, (400 <= code < 500)%Z /\
+    handler parse_body validate build sha ep roots win now body = Rejected code.
 Proof. exact reject_sound. Qed.
-Print Assumptions C09_reject_partial.
+Print Assumptions C09_reject.
 
 Theorem C09_reject_no_pool : forall parse_body validate build sha, validate_contract validate ->
   forall ep roots win now body,
@@ -59,23 +55,34 @@ Theorem C09_reject_no_pool : forall parse_body validate build sha, validate_cont
 Proof. exact reject_no_pool. Qed.
 Print Assumptions C09_reject_no_pool.
 
-(* the refuted part: there are oracles meeting the contract and a non-acceptable request that
-   is answered 500 (witness: a validated precertificate whose TBSCertificate cannot be defanged) *)
-Theorem C09_reject_4xx_refuted :
+(* ---- the handler BEFORE commits ac90d60 and 48383da (handler_prefix: the same transcription
+   with both codes 500). C09_reject was false of it; these statements explain a regression. ---- *)
+Theorem C09_prefix_reject_partial : forall parse_body validate build sha, validate_contract validate ->
+  forall ep roots win now body,
+  ~ acceptable parse_body validate build sha ep roots win body ->
+  exists code, handler_prefix parse_body validate build sha ep roots win now body = Rejected code /\
+    ((400 <= code < 500)%Z \/
+     (code = 500%Z /\ (oversize_case body \/ tbs_case parse_body validate build roots win body))).
+Proof. exact prefix_reject_partial. Qed.
+Print Assumptions C09_prefix_reject_partial.
+
+(* witness: a validated precertificate whose TBSCertificate cannot be defanged got 500 *)
+Theorem C09_prefix_reject_4xx_refuted :
   exists parse_body validate build sha, validate_contract validate /\
   exists ep roots win now body,
     ~ acceptable parse_body validate build sha ep roots win body /\
-    handler parse_body validate build sha ep roots win now body = Rejected 500.
-Proof. exact reject_4xx_refuted. Qed.
-Print Assumptions C09_reject_4xx_refuted.
+    handler_prefix parse_body validate build sha ep roots win now body = Rejected 500.
+Proof. exact prefix_reject_4xx_refuted. Qed.
+Print Assumptions C09_prefix_reject_4xx_refuted.
 
-(* second witness family, for ANY oracles: an oversize body is answered 500 *)
-Theorem C09_oversize_body_500 : forall parse_body validate build sha ep roots win now body,
+(* witness family, for ANY oracles: an oversize body got 500 (and gets 413 now) *)
+Theorem C09_prefix_oversize_body_500 : forall parse_body validate build sha ep roots win now body,
   max_body < blen body ->
   ~ acceptable parse_body validate build sha ep roots win body /\
-  handler parse_body validate build sha ep roots win now body = Rejected 500.
-Proof. exact oversize_500. Qed.
-Print Assumptions C09_oversize_body_500.
+  handler_prefix parse_body validate build sha ep roots win now body = Rejected 500 /\
+  handler parse_body validate build sha ep roots win now body = Rejected 413.
+Proof. exact prefix_oversize_500. Qed.
+Print Assumptions C09_prefix_oversize_body_500.
 
 (* the handler has no panic path under the contract, and answers 200 only to an acceptable
    request whose leaf was sequenced *)
@@ -154,5 +161,7 @@ Example C09_acceptable_example :
   acceptable toy_parse toy_validate toy_build toy_sha AddChain [[x09]] winX [x01; x08] /\
   toy_handler AddPreChain [[x09]] winX 172800 [x03; x07; x08]
     = Accepted (mkPending [x13; x07] true [x28; xff] [[x07]; [x08]; [x09]] [x03]) true /\
-  toy_handler AddChain [[x09]] (mkWin 100 150) 0 [x01; x08] = Rejected 400.
-Proof. split; [exact ex_acceptable|]. vm_compute. split; reflexivity. Qed.
+  toy_handler AddChain [[x09]] (mkWin 100 150) 0 [x01; x08] = Rejected 400 /\
+  toy_handler AddPreChain [[x09]] winX 0 [x04; x08] = Rejected 400 /\
+  toy_handler_prefix AddPreChain [[x09]] winX 0 [x04; x08] = Rejected 500.
+Proof. split; [exact ex_acceptable|]. vm_compute. repeat split; reflexivity. Qed.
